@@ -133,7 +133,7 @@ DEPS = {
         ("C08", {"C08-R1", "C08-R2"}, "which held keys count for that selection: an absorbed key is hidden until it is pressed again, and forgotten as absorbed before the look-up")],
     "C03": IP_EXACT + AM_EXACT + C19_ALL + CONVERTER_ORDER,
     "C04": C01_ALL + C19_ALL + [("C11", {"C11-R3", "C11-R4"}, "a repeat chord presses only keys that are not held and releases exactly those: it leaves the held set as it was")],
-    "C05": IP_EXACT + C19_ALL + ACTION_KEY_TABLE + CONVERTER_REPEAT,
+    "C05": IP_EXACT + C19_ALL + ACTION_KEY_TABLE + CONVERTER_REPEAT + [("C01", {"C01-R3"}, "a mapping that fires is registered in active_mappings on every return path: the still-used scan of remove_mapping can only spare the outputs of mappings it can see")],
     "C06": C19_ALL + STEP_TABLE + [("C12", {"C12-R2"}, "both tablet arms stop the repeat timer and send release_all's result (the loop's timer is the only memory of a repeat trigger)"),
             ("C08", {"C08-R4"}, "absorbed keys and the absorbing trigger are (re)written whenever an absorbing mapping fires"),
             ("C10", None, "the event loop hands every event to the mapper"), ("C18", {"C18-R3"}, "the reader returns every key record it reads")],
